@@ -90,8 +90,10 @@ def Tree.new (lists : List (List Nat)) (maxVal : Nat) : Tree :=
     (t.moveNext (i + nLists)).1) t
   if nLists > 0 then t.set 0 { t.get 0 with index := -1 } else t
 
+/-- `playGame` (after fix a6b17a3): an exhausted sequence (index == -1, value == maxVal) loses against a
+live sequence whose current value equals maxVal. -/
 def Tree.playGame (t : Tree) (a b : Nat) : Nat × Nat :=   -- (loser, winner)
-  if (t.get a).value < (t.get b).value then (b, a) else (a, b)
+  if (t.get a).value < (t.get b).value ∨ ((t.get a).index ≠ -1 ∧ (t.get b).index = -1) then (b, a) else (a, b)
 
 /-- body of the `for i := len-2; i > 0; i -= 2` loop of `initialize`; `k` counts the remaining rounds. -/
 def Tree.initLoop (t : Tree) (winners : List Nat) : Nat → Nat → Tree × List Nat
